@@ -233,7 +233,7 @@ func C10(c *core.Ctx) {
 	for _, h := range []struct{ field, cname string }{{"PitToken", "pitTokenOverhead"}, {"CongestionMark", "congestionMarkOverhead"}} {
 		k := constVal(h.cname)
 		var reserve ssa.Instruction
-		core.Instrs(send, func(in ssa.Instruction) {
+		core.InstrsDeep(send, func(in ssa.Instruction) {
 			// effectiveMtu -= k, or reserved += k (subtracted from the MTU afterwards)
 			if b, ok := in.(*ssa.BinOp); ok && b.Op == token.SUB {
 				if kk, isC := core.ConstInt(b.Y); isC && kk == k {
@@ -281,6 +281,29 @@ func C10(c *core.Ctx) {
 		for i, st := range written[h.field] {
 			v := st.(*ssa.Store).Val
 			a := atomPresent(h.field+" present", v)
+			if g := reserve.Parent(); g != send {
+				// the room is computed by a helper (payloadRoom(out, mark)): inside it the
+				// reservation is passed on every path on which the value is (or may be)
+				// present, and in sendPacket the helper runs before the header is attached
+				restore := core.WithRoot(send)
+				okIn := true
+				core.Instrs(g, func(in ssa.Instruction) {
+					if r, isR := in.(*ssa.Return); isR {
+						if stt := core.ReachUnder(g, r, a, func(x ssa.Instruction) bool { return x == reserve }); stt&(1<<0) != 0 || stt&(1<<1) != 0 {
+							okIn = false
+						}
+					}
+				})
+				call, _, okF := core.CommonFrame(send, reserve, st)
+				okOut := false
+				if okF && call.Parent() == send {
+					stt := core.ReachUnder(send, st, a, func(x ssa.Instruction) bool { return x == call })
+					okOut = stt&(1<<0) == 0 && stt&(1<<1) == 0
+				}
+				restore()
+				c.Decide(okIn && okOut, "R10.2", fmt.Sprintf("%s#%d", key, i), c.Pos(st), "the "+h.field+" header is attached only after "+core.FuncName(g)+" ran, which reserves its overhead whenever the attached value is present", "sendPacket can attach a "+h.field+" header although no room was reserved for it ("+core.FuncName(g)+" tests a different value than the one attached, or runs too late): the frame exceeds the MTU by "+fmt.Sprint(k)+" bytes")
+				continue
+			}
 			states := core.ReachUnder(send, st, a, func(in ssa.Instruction) bool { return in == reserve })
 			// the attach store must not be reachable while its value is present (or unknown)
 			// without the reservation having been executed
@@ -471,7 +494,7 @@ func C10(c *core.Ctx) {
 	{
 		var rets []ssa.Instruction
 		core.Instrs(reas, func(in ssa.Instruction) {
-			if r, ok := in.(*ssa.Return); ok && !core.IsNilConst(r.Results[0]) {
+			if r, ok := in.(*ssa.Return); ok && len(r.Results) > 0 && !core.IsNilConst(r.Results[0]) {
 				rets = append(rets, r)
 			}
 		})
@@ -482,6 +505,76 @@ func C10(c *core.Ctx) {
 			}
 		}
 		c.Decide(okDel, "R10.3", "completed-message-removed", p.Pos(reas.Pos()), "a reassembled message is deleted from the partial-message store before it is returned", "a completed message stays in the partial-message store: a later message reusing the sequence number is corrupted and memory grows")
+	}
+
+	// ---- R10.8 a message is handed up only after every slot of the stored message was
+	// looked at: the "is this slot still empty" tests sit in loops that visit every index of
+	// the slot list (a scan that skips slot 0 or the last slot declares a message complete
+	// while a fragment is missing — for exactly one arrival order)
+	{
+		isSlots := func(t types.Type) bool {
+			s1, ok := t.Underlying().(*types.Slice)
+			if !ok {
+				return false
+			}
+			s2, ok := s1.Elem().Underlying().(*types.Slice)
+			if !ok {
+				return false
+			}
+			b, ok := s2.Elem().Underlying().(*types.Basic)
+			return ok && b.Kind() == types.Uint8
+		}
+		nTests, nLib := 0, 0
+		seen := map[*ssa.IndexAddr]bool{}
+		restore := core.WithRoot(reas)
+		core.InstrsDeep(reas, func(in ssa.Instruction) {
+			iff, ok := in.(*ssa.If)
+			if !ok {
+				return
+			}
+			_, x, y, ok := core.Cmp(iff.Cond)
+			if !ok {
+				return
+			}
+			l, isLen := core.LenOf(x)
+			if !isLen {
+				l, isLen = core.LenOf(y)
+			}
+			if !isLen {
+				return
+			}
+			// the tested value is an element of a slot list
+			u, ok := core.Strip(l).(*ssa.UnOp)
+			if !ok || u.Op != token.MUL {
+				// an element handed to a predicate by a library traversal
+				// (slices.ContainsFunc(parts, func(p []byte) bool { return len(p) == 0 }))
+				if par, isP := core.Strip(l).(*ssa.Parameter); isP && par.Parent().Parent() != nil {
+					nLib++
+				}
+				return
+			}
+			ia, ok := u.X.(*ssa.IndexAddr)
+			if !ok || !isSlots(ia.X.Type()) || seen[ia] {
+				return
+			}
+			seen[ia] = true
+			nTests++
+			tr, why := core.TraversalOf(ia)
+			key := "slot-scan-covers-every-slot:" + core.FuncName(in.Parent())
+			switch tr {
+			case core.TraversalFull:
+				c.Ok("R10.8", key, c.Pos(in), "the emptiness test of a slot runs in a loop over every index of the slot list ("+why+")")
+			case core.TraversalPartial:
+				c.Viol("R10.8", key, c.Pos(in), "the scan that decides whether a message is complete does not look at every slot ("+why+"): a message is declared complete while that fragment is still missing, and is delivered truncated or dropped")
+			default:
+				c.Und("R10.8", key, c.Pos(in), "cannot classify the loop that scans the slots ("+why+")")
+			}
+		})
+		restore()
+		c.Sites += nTests
+		if nLib == 0 {
+			c.Floor("R10.8", "slot emptiness tests in the reassembly path", nTests, 1)
+		}
 	}
 
 	// ---- R10.6 the cached header overhead is recomputed after every change of the options
